@@ -152,7 +152,11 @@ impl LazyKnownValues {
     /// This method guarantees that initialization occurs exactly once,
     /// even when called from multiple threads simultaneously.
     pub fn get(&self) -> std::sync::MutexGuard<'_, Option<KnownValuesStore>> {
+        #[cfg(bc_envelope_verif)]
+        crate::verif_hooks::emit("once_enter", "KV");
         self.init.call_once(|| {
+            #[cfg(bc_envelope_verif)]
+            crate::verif_hooks::emit("once_run_begin", "KV");
             let m = KnownValuesStore::new([
                 IS_A,
                 ID,
@@ -237,8 +241,19 @@ impl LazyKnownValues {
                 PSBT_TYPE,
                 OUTPUT_DESCRIPTOR_TYPE,
             ]);
+            #[cfg(bc_envelope_verif)]
+            crate::verif_hooks::emit("blip", "KV");
             *self.data.lock().unwrap() = Some(m);
+            #[cfg(bc_envelope_verif)]
+            crate::verif_hooks::emit("once_run_end", "KV");
         });
+        #[cfg(bc_envelope_verif)]
+        {
+            let guard = self.data.lock().unwrap();
+            crate::verif_hooks::emit("acq", "KV");
+            return guard;
+        }
+        #[cfg(not(bc_envelope_verif))]
         self.data.lock().unwrap()
     }
 }
